@@ -61,7 +61,8 @@ BehSets ==
       [] OTHER -> { <<>>, << <<"q", "b", "ignore">>, <<"r", "c", "nothing">> >> }
 
 Prefixes ==
-    CASE Menu = "C08" -> { <<>>, <<RunAll, RunAll>> }
+    CASE Menu = "C08" -> { <<>>, <<RunAll, RunAll>>,
+                           <<RunAll, RunAll, AddUser("q", ".#types.go"), RunAll>> }     \* generated once while q's directory cannot be hashed
       [] Menu = "C02" -> IF Lite THEN { <<>>, <<RunAll, RunAll>>, <<RunAll, RunAll, AddUser("p", "zz_generated.old.go"), AddUser("q", "zz_generated.old.go")>> }
                          ELSE { <<>>, <<RunAll>>, <<RunAll, RunAll>>, <<RunAll, RunAll, AddUser("p", "zz_generated.old.go"), AddUser("q", "zz_generated.old.go")>>,
                                 <<RunAll, RunAll, DelSum>> }
@@ -75,7 +76,8 @@ TailMenu ==
                            From("q", RunAll), From("r", Run(TRUE, FALSE, <<"r">>, G3, NoFault)),
                            Edit("p"), Edit("q"), AddUser("q", "user.go"), DelUser("q", "user.go"), DelOut("p", "a"), AddUser("p", "notes.txt"),
                            DelSum, Corrupt("drop"), Corrupt("wrong"), Corrupt("garbage"), Corrupt("truncate"),
-                           Corrupt("shuffle"), Corrupt("noise") }                  \* damage that keeps every entry readable
+                           Corrupt("shuffle"), Corrupt("noise"),                   \* damage that keeps every entry readable
+                           AddUser("q", ".#types.go"), DelUser("q", ".#types.go") }  \* an editor's lock file (a dangling symbolic link): the directory cannot be hashed
       [] Menu = "C02" -> { Run(TRUE, FALSE, PQR, G3, f) : f \in AllFaults } \cup
                          { Run(FALSE, FALSE, <<"r", "q">>, <<"b", "a">>, f) : f \in AllFaults } \cup
                          (IF Lite THEN {} ELSE { Run(TRUE, TRUE, <<"r">>, G3, f) : f \in {x \in AllFaults : x.pkg # "q"} })
